@@ -24,11 +24,12 @@ const RULE: &str = "a case = idle timeout T from {none, 1 ns, 1 s, 10 s, and two
 
 static META: Metadata<'static> = Metadata::new("c12", Level::INFO, None);
 
-const TIMEOUTS: [Option<u64>; 6] = [None, Some(1), Some(1_000_000_000), Some(10_000_000_000), Some(u64::MAX), Some(u64::MAX - 1_000_000_000)];
+const TIMEOUTS: [Option<u64>; 7] = [None, Some(0), Some(1), Some(1_000_000_000), Some(10_000_000_000), Some(u64::MAX), Some(u64::MAX - 1_000_000_000)];
 
 #[derive(Debug, Clone, Copy, PartialEq)]
 enum Step {
     Update(usize, usize, bool), // key, kind, keep_value_same
+    Register(usize, usize),     // key, kind: registered (or looked up) without any update — `let c = counter!(..);` never used
     Advance(u64),
     Observe,
 }
@@ -61,7 +62,15 @@ fn decode(src: &mut Source, kinds: usize) -> Case {
     let n = 2 + src.below(39);
     let steps = (0..n)
         .map(|_| match src.below(8) {
-            0 | 1 | 2 => Step::Update(src.below(nkeys), src.below(kinds), src.chance(64)),
+            0 | 1 | 2 => {
+                let (k, kind, b) = (src.below(nkeys), src.below(kinds), src.byte());
+                // (same bytes as before: what used to be an update with a low third byte is now a bare registration)
+                if (1..=20).contains(&b) {
+                    Step::Register(k, kind)
+                } else {
+                    Step::Update(k, kind, b >= 192)
+                }
+            }
             3 | 4 => Step::Advance(dec_advance(src, timeout)),
             _ => Step::Observe,
         })
@@ -93,6 +102,11 @@ struct RefState {
 }
 
 impl RefState {
+    fn register(&mut self) {
+        if !self.live {
+            *self = RefState { live: true, ..Default::default() };
+        }
+    }
     fn update(&mut self, amount: u64, set_gauge: Option<u64>) {
         if !self.live {
             *self = RefState { live: true, ..Default::default() };
@@ -172,6 +186,21 @@ fn run_direct(case: &Case, ctx: &mut Ctx) -> Result<(), Fail> {
                     two_kinds = true;
                 }
             }
+            Step::Register(k, kind) => {
+                let st = model.entry((*k, *kind)).or_default();
+                if !st.live || st.gen == 0 {
+                    ctx.nontrivial("metric-registered-but-never-updated");
+                }
+                match kind {
+                    0 => registry.get_or_create_counter(&keys[*k], |_| ()),
+                    1 => registry.get_or_create_gauge(&keys[*k], |_| ()),
+                    _ => registry.get_or_create_histogram(&keys[*k], |_| ()),
+                }
+                st.register();
+                if (0..3).filter(|kd| model.get(&(*k, *kd)).map(|s| s.live).unwrap_or(false)).count() >= 2 {
+                    two_kinds = true;
+                }
+            }
             Step::Advance(d) => {
                 mock.increment(Duration::from_nanos(*d));
                 now += d;
@@ -237,7 +266,7 @@ pub fn case_prom(bytes: &[u8], _s: &[u8], ctx: &mut Ctx) -> Result<(), Fail> {
     // one kind per key (the exporter cannot express one key under two kinds): key i has kind i % 3
     let mut case = decode(&mut src, 1);
     for s in case.steps.iter_mut() {
-        if let Step::Update(k, kind, _) = s {
+        if let Step::Update(k, kind, _) | Step::Register(k, kind) = s {
             *kind = *k % 3;
         }
     }
@@ -285,6 +314,18 @@ pub fn case_prom(bytes: &[u8], _s: &[u8], ctx: &mut Ctx) -> Result<(), Fail> {
                         st.update(1, None);
                     }
                 }
+            }
+            Step::Register(k, kind) => {
+                let st = model.entry(*k).or_default();
+                if !st.live || st.gen == 0 {
+                    ctx.nontrivial("metric-registered-but-never-updated");
+                }
+                match kind {
+                    0 => drop(rec.register_counter(&keys[*k], &META)),
+                    1 => drop(rec.register_gauge(&keys[*k], &META)),
+                    _ => drop(rec.register_histogram(&keys[*k], &META)),
+                }
+                st.register();
             }
             Step::Advance(d) => {
                 mock.increment(Duration::from_nanos(*d));
